@@ -447,6 +447,13 @@ namespace smt
                         while (!prop_q.empty())
                             prop_q.pop();
 
+                        // the conflict might not involve the current decision level (e.g., when bounds are changed between two propagations): we backtrack to the highest level it involves..
+                        size_t c_level = 0;
+                        for (const auto &l : th->cnfl)
+                            c_level = std::max(c_level, level[variable(l)]);
+                        while (decision_level() > c_level)
+                            pop();
+
                         if (root_level())
                         {
                             VERIF_HOOK(theory_conflict(*th, th->cnfl));
@@ -467,6 +474,13 @@ namespace smt
         for (const auto &th : theories)
             if (!th->check())
             {
+                // the conflict might not involve the current decision level (e.g., when bounds are changed between two propagations): we backtrack to the highest level it involves..
+                size_t c_level = 0;
+                for (const auto &l : th->cnfl)
+                    c_level = std::max(c_level, level[variable(l)]);
+                while (decision_level() > c_level)
+                    pop();
+
                 if (root_level())
                 {
                     VERIF_HOOK(theory_conflict(*th, th->cnfl));
